@@ -362,15 +362,6 @@ theorem runWith_pres (special : SpecialFn) (mode : Mode) (c : Nat) (sig : Sig) (
     pres
   · pres
 
-theorem runInner_pres {c : Nat} (H : Hyps I c) (mode : Mode) (sig : Sig) (raw : List Bytes) :
-    Pres I (runInner mode c sig raw) := by
-  unfold runInner
-  apply runWith_pres
-  intro args cis
-  apply special_pres H
-  intro sig raw
-  pres
-
 theorem nextPick_pres : Pres I nextPick := by
   unfold nextPick
   refine Pres.get_bind (fun s hs => ?_)
@@ -435,6 +426,14 @@ theorem runScriptCmd_pres {c : Nat} (H : Hyps I c) (mode : Mode) (sig : Sig) (ra
     Pres I (runScriptCmd mode c sig raw fromScript) := by
   have hbody := scriptBody_pres _ c (special_stub_pres H) mode
   unfold runScriptCmd; pres
+
+theorem runInner_pres {c : Nat} (H : Hyps I c) (mode : Mode) (sig : Sig) (raw : List Bytes) :
+    Pres I (runInner mode c sig raw) := by
+  refine runInner_cases (P := fun m => Pres I m) mode c sig raw
+    (fun _ => runScriptCmd_pres H mode sig raw false) (fun _ => ?_)
+  apply runWith_pres
+  intro args cis
+  exact special_stub_pres H mode _ args cis
 
 /-- `_run_command` for a command issued by a client -/
 theorem runCommand_pres {c : Nat} (H : Hyps I c) (mode : Mode) (sig : Sig) (raw : List Bytes) (fromScript : Bool) :
@@ -3068,8 +3067,7 @@ theorem queueStep_publish (mode : Mode) (c : Nat) (ch msg : Bytes) (s : Sys) (hp
   unfold queueStep
   simp only [find_publish]
   have hne : sigPublish.name ≠ "exec" := by decide
-  have hns : scriptNames.contains sigPublish.name = false := by decide
-  rw [runInner_eq_runCommand' mode c sigPublish [ch, msg] hne hns]
+  rw [runInner_eq_runCommand' mode c sigPublish [ch, msg] hne]
   simp only [bind, StateT.bind, modifyConn_run]
   have hp : ((s.updConn c fun x => { x with inTx := true }).conn c).pubsub = 0 := by
     rw [pubsub_conn_updConn _ c c (fun x => { x with inTx := true }) (fun _ => rfl)]; exact hps
